@@ -10,8 +10,15 @@ package main
 //   - a flusher (the real FlushWipBufferToFile with zero idle/max-wait durations, every few ms),
 //   - a rotator (the real ForceRotateSegmentsForTest, every ~100 ms),
 //   - two searchers issuing match-all record queries and `* | stats count` over all indexes,
+//   - a FAN-IN goroutine: every ~150 ms it takes 2–3 brand-new indexes (streams without a SegStore) and
+//     releases, through one barrier, 4–8 goroutines per index that each do the FIRST ingest call on it (one
+//     event); every other round it also takes an index of an earlier round whose store has been rotated, has
+//     the store removed from allSegStores as removeStaleSegments does (writer.VerifC11CEvictOnly) and fans in on
+//     it again (first ingests on a stream whose suffix file already exists),
 // and checks, per query, "no _vid twice" and "every _vid whose flush completed before the query began is
-// present" (count queries: at least that many), and, after everything stopped, "all _vid exactly once".
+// present" (count queries: at least that many), and, after everything stopped, "all _vid exactly once"; for the
+// fan-in indexes: after the final flush and after the final rotation a match-all query over them returns the
+// event of every ACKNOWLEDGED first ingest (create/lost-ack, with seed + round + index + counts as the replay).
 // Crash → conc/crash@<frame>, no progress for 40 s → conc/stall (goroutine dump on stderr), race detector
 // report → conc/data-race@<top frame>.  The Oracle answers "ok" to every well-formed line: the model has no
 // opinion on timing, the property statement is checked directly.
@@ -217,6 +224,87 @@ func c11StressMain() {
 			}
 		}(i)
 	}
+	// fan-in: many goroutines doing the FIRST ingest on the same new index, released together
+	type c11Fan struct {
+		index   string
+		round   int
+		g       int
+		evicted bool
+		acked   []int
+		failed  int
+		errMsg  string
+	}
+	var fanMu sync.Mutex
+	var fans []*c11Fan
+	var nFanRounds, nFanCalls, nFanEvicted atomic.Int64
+	wg.Add(1)
+	go func() {
+		defer wg.Done()
+		r := rand.New(rand.NewSource(seed*13 + 7))
+		tsKey := config.GetTimeStampKey()
+		var old []string // indexes of earlier rounds
+		for round := 0; ; round++ {
+			select {
+			case <-stop:
+				return
+			default:
+			}
+			var batch []*c11Fan
+			for k := 2 + r.Intn(2); k > 0; k-- {
+				batch = append(batch, &c11Fan{index: fmt.Sprintf("c11fan%dx%d", round, k), round: round, g: 4 + r.Intn(5)})
+			}
+			if round%2 == 1 && len(old) > 0 {
+				// a stream whose store was rotated and then removed as stale (no ingest on it is in flight: its round is over)
+				ix := old[r.Intn(len(old))]
+				if len(writer.VerifC11CEvictOnly(ix)) > 0 {
+					nFanEvicted.Add(1)
+					batch = append(batch, &c11Fan{index: ix, round: round, g: 4 + r.Intn(5), evicted: true})
+				}
+			}
+			start := make(chan struct{})
+			var fwg sync.WaitGroup
+			for _, f := range batch {
+				for j := 0; j < f.g; j++ {
+					fwg.Add(1)
+					go func(f *c11Fan) {
+						defer fwg.Done()
+						var stack [64]byte
+						vid := int(nextVid.Add(1))
+						now := uint64(time.Now().UnixMilli())
+						raw := []byte(fmt.Sprintf(`{"_vid":%d,"m":"fan"}`, vid))
+						ple, err := writer.GetNewPLE(raw, now, f.index, &tsKey, stack[:])
+						<-start
+						if err == nil {
+							ples := []*writer.ParsedLogEvent{ple}
+							err = eswriter.ProcessIndexRequestPle(now, f.index, false, map[string]string{}, 0, 0, map[string]string{}, map[uint64]string{}, stack[:], ples)
+							writer.ReleasePLEs(ples)
+						}
+						fanMu.Lock()
+						if err != nil {
+							f.failed++
+							f.errMsg = err.Error()
+						} else {
+							f.acked = append(f.acked, vid)
+						}
+						fanMu.Unlock()
+						nFanCalls.Add(1)
+					}(f)
+				}
+			}
+			close(start)
+			fwg.Wait()
+			fanMu.Lock()
+			fans = append(fans, batch...)
+			fanMu.Unlock()
+			for _, f := range batch {
+				if !f.evicted {
+					old = append(old, f.index)
+				}
+			}
+			nFanRounds.Add(1) // (not counted as progress: the stall watchdog keeps judging ingest / flush / rotation / search)
+			time.Sleep(time.Duration(100+r.Intn(100)) * time.Millisecond)
+		}
+	}()
 	var flushMu sync.Mutex // orders barrier updates (flusher and rotator both flush)
 	publish := func(t0 int64) {
 		flushMu.Lock()
@@ -476,13 +564,75 @@ func c11StressMain() {
 			fail("conc/quiescent-count-differs", fmt.Sprintf("%s: count %d for %d ingested events", phase, count, total))
 		}
 	}
+	fanCheck := func(phase string) {
+		fanMu.Lock()
+		defer fanMu.Unlock()
+		if len(fans) == 0 {
+			return
+		}
+		names := map[string]bool{}
+		var list []string
+		for _, f := range fans {
+			if !names[f.index] {
+				names[f.index] = true
+				list = append(list, f.index)
+			}
+		}
+		seen := map[int]int{}
+		// 40 indexes per query
+		for i := 0; i < len(list); i += 40 {
+			j := i + 40
+			if j > len(list) {
+				j = len(list)
+			}
+			saved := index
+			index = list[i:j]
+			vids, _, errs := runQ(false)
+			index = saved
+			if errs != "" {
+				fail("conc/query-error", phase+" (fan-in indexes): "+errs)
+				return
+			}
+			for _, v := range vids {
+				seen[v]++
+			}
+		}
+		for _, f := range fans {
+			found := 0
+			twice := 0
+			for _, v := range f.acked {
+				if seen[v] >= 1 {
+					found++
+				}
+				if seen[v] > 1 {
+					twice++
+				}
+			}
+			kind := "a brand-new index"
+			if f.evicted {
+				kind = "an index whose rotated store had been removed from allSegStores as stale"
+			}
+			if found < len(f.acked) {
+				fail("create/lost-ack", fmt.Sprintf("%s: seed %d, fan-in round %d: %d goroutines did the first ingest on %s (%s) at the same time; %d calls were acknowledged (%d failed), a match-all query on the index finds %d of the acknowledged events",
+					phase, seed, f.round, f.g, f.index, kind, len(f.acked), f.failed, found))
+			}
+			if twice > 0 {
+				fail("create/event-twice", fmt.Sprintf("%s: seed %d, fan-in round %d, index %s: %d acknowledged events are returned more than once", phase, seed, f.round, f.index, twice))
+			}
+			if f.failed > 0 {
+				fail("create/ingest-error", fmt.Sprintf("seed %d, fan-in round %d: %d of %d simultaneous first ingests on %s (%s) failed: %s", seed, f.round, f.failed, f.g, f.index, kind, f.errMsg))
+			}
+		}
+	}
 	check("after final flush")
+	fanCheck("after final flush")
 	writer.ForceRotateSegmentsForTest()
 	check("after final rotation")
+	fanCheck("after final rotation")
 	mu.Lock()
 	total := len(ingestDone)
 	mu.Unlock()
-	fmt.Printf("done events=%d queries=%d rotations=%d flushes=%d procs=%d\n", total, nQueries.Load(), nRot.Load(), nFlush.Load(), runtime.GOMAXPROCS(0))
+	fmt.Printf("done events=%d queries=%d rotations=%d flushes=%d faninrounds=%d fanincalls=%d faninevicted=%d procs=%d\n", total, nQueries.Load(), nRot.Load(), nFlush.Load(), nFanRounds.Load(), nFanCalls.Load(), nFanEvicted.Load(), runtime.GOMAXPROCS(0))
 	for _, f := range fails {
 		b, _ := json.Marshal(f)
 		fmt.Println("FAIL " + string(b))
@@ -635,7 +785,7 @@ func execConcStress(line string) Result {
 			finished = true
 			for _, kv := range strings.Fields(l)[1:] {
 				p := strings.SplitN(kv, "=", 2)
-				if len(p) == 2 && (p[0] == "queries" || p[0] == "rotations") {
+				if len(p) == 2 && (p[0] == "queries" || p[0] == "rotations" || p[0] == "faninrounds" || p[0] == "faninevicted") {
 					if n, _ := strconv.Atoi(p[1]); n > 0 {
 						res.Tags = append(res.Tags, "had-"+p[0])
 					}
@@ -707,5 +857,5 @@ func genConcStress(r *rand.Rand, n int, tier string) []string {
 
 func init() {
 	register(&Suite{Name: "concstress", Parallel: 1, Gen: genConcStress, Exec: execConcStress,
-		Rule: "EXPLORATION (supporting only): a separate engine process runs concurrent ingest on 2–3 indexes + periodic flush + forced rotation + repeated match-all / count queries for a fixed time under GOMAXPROCS 1, 4, 16 (thorough tier: also a -race build) and checks per query: no event twice, every event flushed before the query began present; at quiescence: every event exactly once; crash, stall and race-detector reports become findings"})
+		Rule: "EXPLORATION (supporting only): a separate engine process runs concurrent ingest on 2–3 indexes + periodic flush + forced rotation + repeated match-all / count queries + fan-in rounds (4–8 goroutines released together doing the FIRST ingest on each of 2–3 brand-new indexes, every other round also on an index whose rotated store was removed as stale) for a fixed time under GOMAXPROCS 1, 4, 16 (thorough tier: also a -race build) and checks per query: no event twice, every event flushed before the query began present; at quiescence: every event exactly once, every acknowledged first ingest of a fan-in round searchable; crash, stall and race-detector reports become findings"})
 }
